@@ -170,7 +170,7 @@ def fakes(S, on_event=None):
                 raise RuntimeError("cannot notify on un-acquired lock")
             for tok in self.waiters[:n]:
                 tok["n"] = True
-            ev("notify", S.cur, self, min(n, len(self.waiters)))
+            ev("notify", S.cur, self, min(n, len(self.waiters)), len(self.waiters))
             del self.waiters[:n]
 
         def notify_all(self):
